@@ -55,7 +55,13 @@ func (c *checkCtx) confirm(v Violation) (bool, string) {
 		if err := json.Unmarshal(v.Replay, &p); err != nil {
 			return false, err.Error()
 		}
-		return c.tryPlanN(&p, v.Key, 10)
+		ok, info := c.tryPlanN(&p, v.Key, 10)
+		if !ok {
+			if ok2, info2 := c.confirmSchedSlice(&p, v.Key); ok2 {
+				return true, info2
+			}
+		}
+		return ok, info
 	}
 	var cross struct {
 		Cross bool `json:"cross_process"`
@@ -201,6 +207,32 @@ func (c *checkCtx) report(v Violation) {
 	ok, info := c.confirm(v)
 	if !ok {
 		c.infraf("violation %s did not reproduce from its replay file %s in a fresh process (not reported as a violation): %s", v.Key, path, tail(info, 1500))
+		return
+	}
+	if k := matchKnown(c.Known, v); k != nil {
+		c.nKnown++
+		fmt.Printf("KNOWN-FINDING: property=%s %s\n", v.Property, k.Text)
+		os.Remove(path)
+		return
+	}
+	c.nViol++
+	c.replays = append(c.replays, path)
+	fmt.Printf("VIOLATION property=%s replay=%s\n", v.Property, path)
+	fmt.Printf("  kind=%s key=%s\n  %s\n", v.Kind, v.Key, v.Detail)
+}
+
+// reportConfirmed prints a violation whose reproduction has already been established.
+func (c *checkCtx) reportConfirmed(v Violation) {
+	if c.seen == nil {
+		c.seen = map[string]int{}
+	}
+	c.seen[v.Key]++
+	if c.seen[v.Key] > 1 {
+		return
+	}
+	path, err := writeReplay(c.Root, v)
+	if err != nil {
+		c.infraf("cannot write replay: %v", err)
 		return
 	}
 	if k := matchKnown(c.Known, v); k != nil {
